@@ -209,3 +209,17 @@ PLAN["C17"] = {
     "quick": {"wall": 120, "tests": [{"run": "TestC17", "shards": 16, "checks": 80, "timeout": 100}]},
     "thorough": {"wall": 900, "tests": [{"run": "TestC17", "shards": 16, "checks": 4000, "timeout": 840}]},
 }
+
+_stack("C07", "TestC07",
+       "merge tier: stack programs (RF 2-3) with writes, volume snapshots (user-created) and replica loss in which a fresh, spare or stale replica is added and rebuilt; the rebuild "
+       "runs the product's steps (auto snapshot on add, SetRebuilding, Reload without preload, SyncDir, UpdateLUNMap, VerifyRebuildReplica, SetRebuilding(false)) with the file transfer "
+       "done by the harness oldest->newest, and 0-3 fault-free foreground writes before, after every copied file, concurrently with UpdateLUNMap (real goroutines) and after; "
+       "interruptions: a snapshot not transferred, set-mode REST failure during verification; at promotion: live image of the newcomer = source = model of all acknowledged writes, "
+       "chains equal, every user snapshot (and every automatic one while reclamation was never on) byte-identical on both directories, counters equal; never two WO; an interrupted "
+       "rebuild leaves the replica not RW, persisted as rebuilding and serving no read; system tier (TestC07System): the real sync.Task.AddReplica with real sync-agent / ssync child "
+       "processes; non-trivial = >=1 promotion with acknowledged foreground writes", 30, 900)
+PLAN["C07"]["quick"]["tests"].append({"run": "TestC07System", "shards": 4, "checks": 2, "timeout": 130})
+PLAN["C07"]["quick"]["tests"][0]["shards"] = 12
+PLAN["C07"]["thorough"]["tests"].append({"run": "TestC07System", "shards": 6, "checks": 25, "timeout": 840})
+PLAN["C07"]["thorough"]["tests"][0]["shards"] = 10
+PLAN["C07"]["needs_jiva"] = True
